@@ -531,6 +531,7 @@ func TestC13(t *testing.T) {
 			"oracle: model of the gate (numeric wire order) and of the per-connection negotiated algorithm; exactly one SUPPORTED/READY/ERROR, nothing reaches a backend, protocol error names the version and leaves the connection usable, forwarded requests run on a backend connection with the client's algorithm and version and responses carry it; "+
 			"non-trivial = a gated frame followed by a served frame, a STARTUP naming a compression, or two clients with different algorithms; distinct by case content")
 	defer finish(t, rec)
+	rec.SetJournalAll(true)
 	rec.Assume("known versions are v2..v5, DSEv1, DSEv2 (what the protocol library accepts); v1/v2 use the 8-byte header layout",
 		"'never forwarded' for handshake frames is decided by counting STARTUP/OPTIONS/REGISTER frames at the fake backends before and after a step that cannot create a session (heartbeat interval 30s)")
 	defer func() {
